@@ -35,12 +35,12 @@ func coverCalls(u *universe, w *hWorld) []*callSpec {
 	var l []*callSpec
 	// destination-side guards of the multi transfer
 	l = append(l,
-		mk(0, "MultiESDTNFTTransfer", a, b, true, true, one, tok, nil, one),                 // sender account local on the destination side
-		mk(0, "MultiESDTNFTTransfer", u.U[2], b, false, false, one, tok, nil, one),          // no destination account
-		mk(0, "MultiESDTNFTTransfer", u.U[2], b, false, true, nil, tok, nil, one),           // zero transfers
-		mk(0, "MultiESDTNFTTransfer", u.U[2], b, false, true, be(2), tok, nil, one),         // count above len/3
+		mk(0, "MultiESDTNFTTransfer", a, b, true, true, one, tok, nil, one),                   // sender account local on the destination side
+		mk(0, "MultiESDTNFTTransfer", u.U[2], b, false, false, one, tok, nil, one),            // no destination account
+		mk(0, "MultiESDTNFTTransfer", u.U[2], b, false, true, nil, tok, nil, one),             // zero transfers
+		mk(0, "MultiESDTNFTTransfer", u.U[2], b, false, true, be(2), tok, nil, one),           // count above len/3
 		mk(0, "MultiESDTNFTTransfer", u.U[2], b, false, true, be(2), tok, nil, one, tok, nil), // fewer arguments than 3n+1
-		mk(0, "MultiESDTNFTTransfer", u.U[2], b, false, true, wrapCounts[1], tok, nil, one), // wrap residue on the destination side
+		mk(0, "MultiESDTNFTTransfer", u.U[2], b, false, true, wrapCounts[1], tok, nil, one),   // wrap residue on the destination side
 	)
 	// destination-side guards of the single NFT transfer
 	l = append(l,
@@ -59,13 +59,13 @@ func coverCalls(u *universe, w *hWorld) []*callSpec {
 	)
 	// system-contract functions with a wrong shape
 	l = append(l,
-		mk(0, "ESDTPause", u.SC, a, false, true, tok),                 // recipient is not the system account
+		mk(0, "ESDTPause", u.SC, a, false, true, tok), // recipient is not the system account
 		mk(0, "ESDTUnPause", u.SC, a, false, true, tok),
-		mk(0, "ESDTNFTCreateRoleTransfer", u.SC, a, false, true, nft, b, one), // three arguments at the current owner
+		mk(0, "ESDTNFTCreateRoleTransfer", u.SC, a, false, true, nft, b, one),     // three arguments at the current owner
 		mk(0, "ESDTNFTCreateRoleTransfer", u.U[2], a, false, true, nft, one, one), // three arguments at the next owner
-		mk(0, "ESDTNFTCreateRoleTransfer", u.SC, a, false, true, nft, u.Short),  // new owner of another length
-		mk(0, "ESDTNFTCreateRoleTransfer", u.SC, a, true, true, nft, b),          // sender account local
-		mk(0, "ESDTNFTCreateRoleTransfer", u.SC, a, false, false, nft, b),        // no destination account
+		mk(0, "ESDTNFTCreateRoleTransfer", u.SC, a, false, true, nft, u.Short),    // new owner of another length
+		mk(0, "ESDTNFTCreateRoleTransfer", u.SC, a, true, true, nft, b),           // sender account local
+		mk(0, "ESDTNFTCreateRoleTransfer", u.SC, a, false, false, nft, b),         // no destination account
 		mk(0, "ESDTBurn", a, u.SC, false, false, tok, one),                        // no sender account
 		mk(0, "ESDTFreeze", u.SC, a, false, false, tok),                           // no destination account
 		mk(0, "ESDTSetRole", u.SC, a, false, false, tok, []byte("ESDTRoleLocalMint")),
